@@ -19,7 +19,10 @@ TITLE = "GP wrappers vs exact rational posterior of the data held at the last up
 RULE = ("cases: (class ∈ {independent, correlated, model list}, input dim 1–3, objectives 2–3, scalar or "
         "full-matrix noise, fixed hyper-parameters, lattice inputs with repeats, an add/update/clear/predict "
         "history) or a train-and-freeze helper call with 0 / ≥1 initial samples; shapes: basic, stale "
-        "(add without update), forget (clear+update), swap (clear, then as many other samples), grow (variance monotone), empty, random, big "
+        "(add without update), forget (clear+update), swap (clear, then as many other samples), eqcount_* (after a "
+        "clear every objective is re-filled with exactly its previous count: other inputs / same inputs other values "
+        "/ equal count for some objectives only / one sample replaced / twice; helpers with as many initial samples "
+        "as training samples), grow (variance monotone), empty, random, big "
         "(25–50 samples), single test point, perm (same multiset, other order/batching), local (model list: "
         "extra observations of one objective); non-trivial = at least one prediction compared against a "
         "posterior with ≥ 1 conditioned sample, or a helper call; distinct by the whole case")
@@ -107,12 +110,90 @@ def _add_ops(rng, cls, samples, ids):
     return ops
 
 
+def _val(rng):
+    return core.dyadic(rng, -24, 24, 3) if rng.random() < 0.5 else rng.gauss(0, 1.5)
+
+
+def _eqcount_case(rng, tier, cls=None, variant=None):
+    """The data change while the counts stay equal: after `clear_data()` (or by clear + re-add with one sample
+    replaced) every objective / the wrapper holds exactly as many samples as it was last conditioned on.
+    variants: newpts (other inputs and values), samepts (same inputs, other values), mixed (model list: equal
+    count for some objectives, other counts for the rest; multi-output: some rows kept, some replaced),
+    replace1 (exactly one sample replaced), twice (two successive equal-count replacements)."""
+    cls = cls or rng.choice(["indep", "corr", "mlist", "mlist"])
+    variant = variant or rng.choice(["newpts", "samepts", "mixed", "replace1", "twice"])
+    d = rng.choice([1, 2, 2, 3])
+    m = rng.choice([2, 2, 3])
+    k = rng.randint(1, 6)
+    T = rng.choice([1, 2, 3])
+    npts = 2 * k + 2
+    P = _points(rng, d, npts, rng.choice([3, 4])) + _points(rng, d, T, 5)
+    test = list(range(npts, npts + T))
+    samples = []
+
+    def new_sample(pid, obj):
+        samples.append([pid, _val(rng), obj] if cls == "mlist" else [pid] + [_val(rng) for _ in range(m)])
+        return len(samples) - 1
+
+    def other_value(s):
+        """a sample at the same input (and objective) whose value(s) differ"""
+        t = list(samples[s])
+        if cls == "mlist":
+            t[1] = t[1] + rng.choice([-2.0, -0.75, 0.5, 1.25])
+        else:
+            t[1:] = [v + rng.choice([-2.0, -0.75, 0.5, 1.25]) for v in t[1:]]
+        samples.append(t)
+        return len(samples) - 1
+
+    objs = [rng.randrange(m) for _ in range(k)]
+    if cls == "mlist" and variant == "mixed" and len(set(objs)) < 2 and k >= 1:
+        objs.append((objs[0] + 1) % m)
+    g1 = [new_sample(i % npts, objs[i]) for i in range(len(objs))]
+
+    def replacement(group, var):
+        if var == "newpts":
+            return [new_sample((samples[s][0] + k + 1) % npts, samples[s][2] if cls == "mlist" else 0) for s in group]
+        if var == "samepts":
+            return [other_value(s) for s in group]
+        if var == "replace1":
+            r = rng.randrange(len(group))
+            return [other_value(s) if i == r else s for i, s in enumerate(group)]
+        # mixed
+        if cls == "mlist":
+            keep = samples[group[0]][2]          # this objective keeps its count, the others change theirs
+            out = [other_value(s) for s in group if samples[s][2] == keep]
+            rest = [s for s in group if samples[s][2] != keep]
+            out += [other_value(s) for s in rest[1:]]                     # one fewer …
+            if rng.random() < 0.5:
+                out += [new_sample(rng.randrange(npts), samples[rest[0]][2]) for _ in range(2)]  # … or one more
+            return out
+        return [other_value(s) if rng.random() < 0.6 else s for s in group[:-1]] + [other_value(group[-1])]
+
+    case = {"kind": "direct", "cls": cls, "d": d, "m": m, "noise": _noise(rng, cls, m), "hyp": _hyp(rng, cls, d, m),
+            "P": P, "samples": samples, "shape": "eqcount_" + variant, "xcol": rng.random() < 0.3, "mono": False}
+    A = lambda sub: _add_ops(rng, cls, samples, sub)  # noqa: E731
+    pred = [3] + test
+    g2 = replacement(g1, "newpts" if variant == "twice" else variant)
+    if rng.random() < 0.5:
+        rng.shuffle(g2)
+    ops = A(g1) + [[2], pred, [1]] + A(g2) + [[2], pred]
+    if variant == "twice":
+        g3 = replacement(g2, "samepts")
+        ops += [[1]] + A(g3) + [[2], pred]
+    case["ops"] = ops
+    return case
+
+
 def _direct_case(rng, tier, shape=None, cls=None):
+    if shape is not None and shape.startswith("eqcount"):
+        return _eqcount_case(rng, tier, cls=cls, variant=shape.split("_", 1)[1] if "_" in shape else None)
     cls = cls or rng.choice(["indep", "indep", "corr", "corr", "mlist", "mlist"])
     d = rng.choice([1, 2, 2, 3])
     m = rng.choice([2, 2, 3])
     shape = shape or rng.choice(["basic", "stale", "forget", "grow", "empty", "random", "big", "single", "perm",
-                                 "local", "repeat", "swap"])
+                                 "local", "repeat", "swap", "eqcount", "eqcount"])
+    if shape == "eqcount":
+        return _eqcount_case(rng, tier, cls=cls)
     if shape == "local" and cls != "mlist":
         shape = "perm"
     lat = rng.choice([2, 3, 4])
@@ -201,19 +282,37 @@ def _direct_case(rng, tier, shape=None, cls=None):
     return case
 
 
-def _helper_case(rng, tier, helper=None, k=None):
+def _helper_case(rng, tier, helper=None, k=None, eqcount=False):
     helper = helper or rng.choice(["mo", "mo", "mlist"])
     cls = "mlist" if helper == "mlist" else rng.choice(["indep", "corr"])
     d = rng.choice([1, 2, 3])
     m = rng.choice([2, 3])
-    n = rng.randint(3, 14)
+    n = rng.randint(2, 5) if eqcount else rng.randint(3, 14)
     T = rng.choice([1, 2, 3])
     k = rng.choice([0, 0, 1, 2, 5]) if k is None else k
     X = _points(rng, d, n, 3)
     Y = [[core.dyadic(rng, -24, 24, 3) for _ in range(m)] for _ in range(n)]
+    np_seed = rng.randrange(2 ** 31)
+    shape = "helper"
+    if eqcount:
+        # the initial samples number exactly what the hyper-parameters were trained on: the whole wrapper (k = n,
+        # multi-output helper) or at least one objective of the model list (k = n·m and a numpy seed under which the
+        # helper's own `np.random.choice(n·m, k)` gives some objective exactly n picks — the generator only steers
+        # the seed; run_case reads the initial samples from the returned model)
+        shape = "helper_eqcount"
+        if helper == "mlist":
+            k = n * m
+            for _ in range(200):
+                np.random.seed(np_seed)
+                picks = np.random.choice(n * m, k) % m
+                if any(int((picks == j).sum()) == n for j in range(m)):
+                    break
+                np_seed = rng.randrange(2 ** 31)
+        else:
+            k = n
     return {"kind": "helper", "helper": helper, "cls": cls, "d": d, "m": m, "noise": _noise(rng, cls, m),
             "hyp": _hyp(rng, cls, d, m), "X": X, "Y": Y, "test": _points(rng, d, T, 5), "k": k,
-            "np_seed": rng.randrange(2 ** 31), "shape": "helper"}
+            "np_seed": np_seed, "shape": shape}
 
 
 def gen(ctx):
@@ -224,9 +323,13 @@ def gen(ctx):
         for shape in ["basic", "single", "stale", "forget", "grow", "empty", "perm", "repeat", "random", "swap"]:
             structured.append(("d", cls, shape))
         structured.append(("d", cls, "local" if cls == "mlist" else "perm"))
+        for variant in ["newpts", "samepts", "mixed", "replace1", "twice"]:
+            structured.append(("d", cls, "eqcount_" + variant))
     for h in ["mo", "mo", "mlist"]:
         for k in [0, 3]:
             structured.append(("h", h, k))
+    for h in ["mo", "mlist", "mlist"]:
+        structured.append(("h", h, "eq"))
     big = [("d", cls, "big") for cls in ["indep", "corr", "mlist"]]
     k = 0
     for item in structured + big:
@@ -236,10 +339,13 @@ def gen(ctx):
         if item[0] == "d":
             yield _direct_case(rng, ctx.tier, shape=item[2], cls=item[1])
         else:
-            yield _helper_case(rng, ctx.tier, helper=item[1], k=item[2])
+            if item[2] == "eq":
+                yield _helper_case(rng, ctx.tier, helper=item[1], eqcount=True)
+            else:
+                yield _helper_case(rng, ctx.tier, helper=item[1], k=item[2])
     for _ in range(ctx.n(110, 4000)):
         if rng.random() < 0.2:
-            yield _helper_case(rng, ctx.tier)
+            yield _helper_case(rng, ctx.tier, eqcount=rng.random() < 0.25)
         else:
             yield _direct_case(rng, ctx.tier)
 
